@@ -18,7 +18,7 @@ pub const CAP_BINARY: usize = 119;
 pub const CAP_TEXT: usize = 20;
 
 /// decode-level capacity of the no-allocator build, from the unarmoured bytes alone
-fn decode_exceeds(bytes: &[u8]) -> bool {
+pub fn decode_exceeds(bytes: &[u8]) -> bool {
     if bytes.is_empty() {
         return false;
     }
@@ -257,7 +257,7 @@ pub fn check(_sub: &str, _cfg: &'static dyn Config, input: &Input, rec: &mut Rec
 }
 
 /// histories around the capacity edges
-fn capacity_histories() -> impl Strategy<Value = Input> {
+pub fn capacity_histories() -> impl Strategy<Value = Input> {
     // a group of 2..4 fragments whose total straddles 384, possibly followed by a fresh group
     (
         proptest::collection::vec(prop::sample::select(vec![1usize, 2, 100, 150, 183, 184, 185, 190, 192, 193, 200, 383, 384, 385, 386, 400]), 2..5),
